@@ -128,9 +128,13 @@ package ring
 //@
 //@ # only these externally triggered transitions are accepted; anything else leaves the state alone
 //@ func Lifecycler.changeState
-//@   property C08
+//@   property C08 C09
 //@   ensures  refused: !((old(i).state == PENDING && state == JOINING) || (old(i).state == JOINING && state == PENDING) || (old(i).state == JOINING && state == ACTIVE) ||
 //@              (old(i).state == PENDING && state == ACTIVE) || (old(i).state == ACTIVE && state == LEAVING)) ==> result != nil && i.state == old(i).state
+//@   # an accepted transition is remembered locally whether or not the ring write succeeded: the next heartbeat publishes
+//@   # the remembered state (C09: a store that rejects writes for a while must not lose the transition)
+//@   ensures  accepted: ((old(i).state == PENDING && state == JOINING) || (old(i).state == JOINING && state == PENDING) || (old(i).state == JOINING && state == ACTIVE) ||
+//@              (old(i).state == PENDING && state == ACTIVE) || (old(i).state == ACTIVE && state == LEAVING)) ==> i.state == state
 //@ assume func Lifecycler.updateConsul
 //@   ensures i.state == old(i).state && i.ID == old(i).ID
 //@
